@@ -3,6 +3,8 @@ package verifsim
 import (
 	"encoding/json"
 	"math/rand"
+
+	"github.com/sanonone/kektordb/pkg/core/distance"
 )
 
 func jsonUnmarshal(s string, v any) {
@@ -27,3 +29,5 @@ func toI64(v any) int64 {
 }
 
 func newRng(seed int64) *rand.Rand { return rand.New(rand.NewSource(seed)) }
+
+func distanceMetric(s string) distance.DistanceMetric { return distance.DistanceMetric(s) }
